@@ -25,8 +25,8 @@ MC_FOR = {
     "C12": ["requests", "layout"], "C20": ["convert"], "C18": ["layout"], "C19": ["layout"],
 }
 
-VIAS_PLAIN = ["typed", "copy", "dynamic", "override", "override_partial"]
-VIAS_UNINIT = ["uninit", "dynamic", "copy", "override", "override_partial"]
+VIAS_PLAIN = ["typed", "copy", "dynamic", "override", "override_partial", "table"]
+VIAS_UNINIT = ["uninit", "dynamic", "copy", "override", "override_partial", "table"]
 
 
 # ----------------------------------------------------------------------------- histories
